@@ -2,13 +2,13 @@
 //@ props C02 C04 C01
 //@ strength proved-unbounded
 //@ min-verified 5
-//@ assume gsub_apply_lookup carries the contract read off its body (src/gsub.rs:286): it needs start + length <= glyphs.len() (it slices / indexes glyphs[start..start + length]) and, when it succeeds, returns the new length r of that segment: the run grows or shrinks by exactly r - length and start + r stays inside it. The contract is a stub here (trusted); its parts for MultipleSubst / LigatureSubst are units C04_mult / C04_lig
+//@ assume gsub_apply_lookup carries the contract read off its body (src/gsub.rs:286): it needs start + length <= glyphs.len() (it slices / indexes glyphs[start..start + length]) and, when it succeeds, returns the new length r of that segment: the run grows or shrinks by exactly r - length and start + r stays inside it. The contract is PROVED in unit C02_lookup for the multiple, ligature, context and chain-context arms (the single, alternate and reverse-chaining arms are opaque there: they do not change the length); it says nothing about `pred` because the driver passes `|_| true`
 //@ assume LayoutCache<GSUB>, LayoutTable<GSUB>, GDEFTable are opaque placeholder types in this unit (only passed through)
 //@ assume TinyVec<[char; 1]> and RawGlyphFlags are opaque stand-in types (as in C04_mult); nothing is claimed about them
 //@ assume scrutinee hoisting: `match glyphs[e].glyph_origin {` is rewritten to `let scrutinee = glyphs[e].glyph_origin; match scrutinee {` (GlyphOrigin is Copy; same evaluation order) because this Verus build panics (vir/src/ast_to_sst.rs:3765) on an index expression as scrutinee of a match with a guard call
 //@ assume a slice / Vec has at most usize::MAX elements (Rust invariant; Verus learns it only from a len() call): precondition of find_fraction and gsub_apply_lookups_impl proved at the call sites, postcondition of the gsub_apply_lookup stub
 //@ assume `slice.iter().position(|g| g.glyph_origin == GlyphOrigin::Char('/'))` is routed through a wrapper with std's documented contract (first index whose element satisfies the predicate); `char::is_ascii_digit` through a wrapper stating '0' <= c <= '9'; `&glyphs[i..]` through a wrapper stating the sub-slice view
-//@ unverified gsub_apply_lookup itself (closure parameter, iter_mut, Rc<LookupCacheItem>, reversed ranges); which lookups the caller passes (HashMap-backed lookup cache)
+//@ unverified which lookups the caller passes (HashMap-backed lookup cache)
 // Verification unit C02_frac (properties C02, C04): the `frac` driver. Text with ASCII fractions is shaped piecewise: the part before
 // a fraction with the ordinary lookups, the fraction digits '/' digits with the frac lookups, and so on to the end of the run.
 // Proved for every glyph run and every behaviour of the lookups allowed by gsub_apply_lookup's contract:
